@@ -387,6 +387,26 @@ def _if(m, op, vals, core):
     m.on_if_exit(op, vals, core)
 
 
+@handler(scf.ExecuteRegionOp)
+def _execute_region(m, op, vals, core):
+    # a region with unstructured control flow between its blocks; left through scf.yield
+    blk = op.region.blocks[0]
+    while True:
+        r = yield from m.exec_block(blk, vals, core)
+        if r is None:
+            raise HarnessError("scf.execute_region block without terminator")
+        if r.kind == "br":
+            blk, argvals = r.values
+            for a, v in zip(blk.args, argvals):
+                vals[a] = v
+            continue
+        if r.kind != "yield":
+            return r
+        for res, v in zip(op.results, r.values):
+            vals[res] = v
+        return None
+
+
 @handler(scf.WhileOp)
 def _while(m, op, vals, core):
     carried = [m.get(vals, a) for a in op.arguments]
